@@ -202,11 +202,11 @@ Theorem C11_clone_fresh : forall n,
   (forall ext m m' n', clone_model all_fixed ext n m = Some (m', n') -> rng n n' (model_oids m')).
 Proof.
   intros n. repeat split.
-  - intros u u' n' H. apply CloneProofs.clone_units_fresh in H; [tauto | reflexivity].
-  - intros v v' n' H. apply CloneProofs.clone_variable_fresh in H; [tauto | reflexivity].
-  - intros r r' n' H. apply CloneProofs.clone_reset_fresh in H; [tauto | reflexivity].
-  - intros c c' n' H. apply CloneProofs.clone_component_fresh in H; [tauto | reflexivity].
-  - intros ext m m' n' H. apply CloneProofs.clone_model_fresh in H; [tauto | reflexivity].
+  - intros u u' n' H. apply CloneProofs.clone_units_fresh in H; [tauto | left; reflexivity].
+  - intros v v' n' H. apply CloneProofs.clone_variable_fresh in H; [tauto | left; reflexivity].
+  - intros r r' n' H. apply CloneProofs.clone_reset_fresh in H; [tauto | left; reflexivity].
+  - intros c c' n' H. apply CloneProofs.clone_component_fresh in H; [tauto | left; reflexivity].
+  - intros ext m m' n' H. apply CloneProofs.clone_model_fresh in H; [tauto | left; reflexivity].
 Qed.
 Print Assumptions C11_clone_fresh.
 
@@ -243,7 +243,7 @@ Theorem C11_clone_independent_component : forall n c c' n' mu,
   (In (mut_target mu) (comp_oids c) -> apply_component mu c' = c') /\
   (In (mut_target mu) (comp_oids c') -> apply_component mu c = c).
 Proof.
-  intros n c c' n' mu Ho Hc. apply CloneProofs.clone_component_fresh in Hc; [|reflexivity]. destruct Hc as (_ & Hn & _). split; intros H.
+  intros n c c' n' mu Ho Hc. apply CloneProofs.clone_component_fresh in Hc; [|left; reflexivity]. destruct Hc as (_ & Hn & _). split; intros H.
   - apply CloneProofs.independent_component. exact (C11_clone_disjoint n n' _ _ Ho Hn _ H).
   - apply CloneProofs.independent_component. intros H'. exact (C11_clone_disjoint n n' _ _ Ho Hn _ H' H).
 Qed.
@@ -254,7 +254,7 @@ Theorem C11_clone_independent_model : forall ext n m m' n' mu,
   (In (mut_target mu) (model_oids m) -> apply_model mu m' = m') /\
   (In (mut_target mu) (model_oids m') -> apply_model mu m = m).
 Proof.
-  intros ext n m m' n' mu Ho Hc. apply CloneProofs.clone_model_fresh in Hc; [|reflexivity]. destruct Hc as (_ & Hn). split; intros H.
+  intros ext n m m' n' mu Ho Hc. apply CloneProofs.clone_model_fresh in Hc; [|left; reflexivity]. destruct Hc as (_ & Hn). split; intros H.
   - apply CloneProofs.independent_model. exact (C11_clone_disjoint n n' _ _ Ho Hn _ H).
   - apply CloneProofs.independent_model. intros H'. exact (C11_clone_disjoint n n' _ _ Ho Hn _ H' H).
 Qed.
@@ -273,12 +273,30 @@ Proof.
 Qed.
 Print Assumptions C11_clone_shares_isrc_refuted.
 
-(* NOT PROVED: clone_independent_partial -- for the PINNED flags (fx_isrc = false) and entities without any import source
-   the clone is fresh and independent as well:
-     forall fx n c c' n', comp_isrcs c = [] -> clone_component fx n c = (c', n') -> rng n n' (comp_oids c').
-   (The freshness lemmas of CloneProofs.v carry the hypothesis fx_isrc fx = true; generalising them to
-   `fx_isrc fx = true \/ no import source` is routine but was not done, because the repaired code is the one modelled
-   by all_fixed.  The correspondence run with C11_FLAGS=10000 observed no sharing outside import sources.) *)
+(* ... and that is the ONLY sharing: under ANY flags (the pinned tree included) the clone of an entity that holds no
+   import source anywhere (comp_isrcs / model_isrcs = []: also none in the Units objects of its variables) is fresh,
+   hence independent *)
+Theorem C11_clone_independent_partial : forall fx n,
+  (forall c c' n' mu, comp_isrcs c = [] -> rng 0 n (comp_oids c) -> clone_component fx n c = (c', n') ->
+      rng n n' (comp_oids c') /\
+      (In (mut_target mu) (comp_oids c) -> apply_component mu c' = c') /\
+      (In (mut_target mu) (comp_oids c') -> apply_component mu c = c)) /\
+  (forall ext m m' n' mu, model_isrcs m = [] -> rng 0 n (model_oids m) -> clone_model fx ext n m = Some (m', n') ->
+      rng n n' (model_oids m') /\
+      (In (mut_target mu) (model_oids m) -> apply_model mu m' = m') /\
+      (In (mut_target mu) (model_oids m') -> apply_model mu m = m)).
+Proof.
+  intros fx n. split.
+  - intros c c' n' mu Hi Ho Hc. apply CloneProofs.clone_component_fresh in Hc; [|right; exact Hi]. destruct Hc as (_ & Hn & _).
+    split; [exact Hn|]. split; intros H.
+    + apply CloneProofs.independent_component. exact (C11_clone_disjoint n n' _ _ Ho Hn _ H).
+    + apply CloneProofs.independent_component. intros H'. exact (C11_clone_disjoint n n' _ _ Ho Hn _ H' H).
+  - intros ext m m' n' mu Hi Ho Hc. apply CloneProofs.clone_model_fresh in Hc; [|right; exact Hi]. destruct Hc as (_ & Hn).
+    split; [exact Hn|]. split; intros H.
+    + apply CloneProofs.independent_model. exact (C11_clone_disjoint n n' _ _ Ho Hn _ H).
+    + apply CloneProofs.independent_model. intros H'. exact (C11_clone_disjoint n n' _ _ Ho Hn _ H' H).
+Qed.
+Print Assumptions C11_clone_independent_partial.
 
 (* ================================================================= 5. equivalences of a cloned model are internal ==== *)
 (* for EVERY model (no well-formedness needed) and every flag setting for which clone returns: each equivalence of a
